@@ -22,6 +22,7 @@ PROOF_NOTE = ("Relative to: the R-axioms about re named in the evidence (assumed
               "Inv of operands (= contract of Pregex.__infer_type, only bounded-checked by stand-in B1), the VC generator "
               "pvc/symex.py with encoding assumptions E1-E12 of DESIGN.md, CPython's regex parser as reader of emitted text, z3/cvc5.")
 
+F7T = "F7: for EVERY literal string s the type (Empty / Token / Other) and the repeatable flag of Pregex(s) are decided - one-character strings over all code points on the real code, longer ones by following __infer_type statement by statement on the unit-wise escaped text, each step's side condition being a regular-language fact about the REAL regex constant (read from the source each run; look-behinds included) decided by a derivative engine; the body forms are compared with the reviewed ones each run."
 CHECKS["C04"] = dict(
   category="proof",
   text="VCs generated from the real bodies of optional/indefinite/one_or_more/exactly/at_least/at_most/at_least_at_most/__mul__/"
@@ -31,7 +32,7 @@ CHECKS["C04"] = dict(
        "and operands. The seven class spellings (quantifiers.py) are proved to have the text of the method spelling. "
        "The operand's category (atom or not: decides (?:P) vs P) and the repeatable flag the methods consult (a wrongly refused operand "
        "has no repetitions at all) are __infer_type's assumed contract: bounded stand-in B1 (category and flag clauses), run here and "
-       "reported as bounded.",
+       "reported as bounded; for literal-string operands both are decided completely by F7 (see C09).",
   note=PROOF_NOTE + " Bounds below sre MAXREPEAT.",
   technique="contract-based deductive verification: AST->VC symbolic execution of the real methods, callee contracts, z3; tree equality via CPython's parser on placeholder texts",
   design_ref="DESIGN.md section 8 (C04), 3.3, Appendix B.1")
@@ -40,9 +41,10 @@ CHECKS["C09"] = dict(
   text="Proved by VCs: every quantifier entry point raises CannotBeRepeatedException iff the request can repeat, the operand is "
        "non-empty and its repeatable flag is False - for all operands, argument kinds and integers. The VALUE of the flag for each "
        "emitted text (direct anchors/positive look-arounds False, anchor-free patterns True) is the contract of __infer_type and "
-       "is only bounded-checked (stand-in B1: ~270k one/two-step DSL expressions per hash seed); that part is exploration.",
+       "bounded-checked in general (stand-in B1: ~270k one/two-step DSL expressions per hash seed); for literal strings - 'every "
+       "literal string is repeatable' - it is decided completely: " + F7T,
   note=PROOF_NOTE,
-  technique="contract-based deductive verification of the quantifier methods (z3) + bounded stand-in B1 for the assumed contract of __infer_type",
+  technique="contract-based deductive verification of the quantifier methods (z3) + complete decision F7 (regular-language facts, derivative engine) for literal operands + bounded stand-in B1 for the rest of the assumed contract of __infer_type",
   design_ref="DESIGN.md section 8 (C09), 7 (B1)")
 G5NOTE = ("Relative to the assumed contracts R5/R8 on `re` (pvc/remodel.py): what re finds is uninterpreted; accessors satisfy the "
           "documented relations. B4 (compile(get_pattern()) == compile(pattern)) assumed. Generators are treated as eager (E9).")
@@ -147,7 +149,7 @@ CHECKS["C01"] = dict(
        "AST, and __escape(c) == ESC(c) is checked on the real function for all 0x110000 code points; R1 (ESC(c) parses to the literal "
        "c) likewise exhaustive. Every public position annotated `Pregex | str` is enumerated from the source each run and must have a "
        "contract; those contracts (VCs as in C02) contain a string argument only as ESC(arg) - a raw argument reaching the text is "
-       "refuted with an adversarial string. Literal operands satisfy the invariant: stand-in B1 (bounded).",
+       "refuted with an adversarial string. Literal operands satisfy the invariant: " + F7T + " One / two DSL steps on literals: stand-in B1 (bounded).",
   note=PROOF_NOTE + " E5 (str.replace of one character is character-wise) is assumed.",
   technique="complete finite decision of __escape over all code points + contract-based deductive verification of every str-accepting position (z3)",
   design_ref="DESIGN.md section 8 (C01), Appendix B.2")
